@@ -36,3 +36,10 @@ Proof. reflexivity. Qed.
    each other) *)
 Lemma context_and_body_as_modelled : ctx_read_per_attempt = true /\ getbody_fresh_reader = true.
 Proof. split; reflexivity. Qed.
+
+(* what one attempt (Client.roundTrip) writes into the Request is per-attempt bookkeeping only -
+   the raw request, its start time, the trace object: nothing that the next attempt's request is
+   built from (method, URL, headers, cookies, body, GetBody, the close flag ...) *)
+Lemma roundtrip_writes_only_bookkeeping :
+  roundtrip_assigns = [bs "RawRequest"; bs "StartTime"; bs "trace"].
+Proof. vm_compute. reflexivity. Qed.
